@@ -59,6 +59,8 @@ pub fn dump_server(c: &mut Client, dbs: &[usize]) -> Result<Dump, String> {
             let val = match tn.as_str() {
                 "string" => match c.cmd(&[b"GET".as_ref(), &k]) {
                     Reply::Frame(Frame::Bulk(b)) => DVal::Str(b),
+                    // expired between TYPE and GET
+                    Reply::Frame(Frame::NullBulk) => continue,
                     r => return Err(format!("dump: GET {} -> {:?}", show_bytes(&k), r)),
                 },
                 "list" => DVal::List(bulk_list(&c.cmd(&[b"LRANGE".as_ref(), &k, b"0", b"-1"])).map_err(|e| format!("dump: LRANGE {}: {}", show_bytes(&k), e))?),
@@ -108,6 +110,14 @@ pub fn dump_server(c: &mut Client, dbs: &[usize]) -> Result<Dump, String> {
                 "none" => continue,
                 other => DVal::Other(other.to_string()),
             };
+            // a collection that expired between TYPE and the read comes back empty
+            match &val {
+                DVal::List(v) if v.is_empty() => continue,
+                DVal::Set(v) if v.is_empty() => continue,
+                DVal::Hash(v) if v.is_empty() => continue,
+                DVal::ZSet(v) if v.is_empty() => continue,
+                _ => {}
+            }
             let pttl = match c.cmd(&[b"PTTL".as_ref(), &k]) {
                 Reply::Frame(Frame::Int(i)) if i >= 0 => Some(i),
                 Reply::Frame(Frame::Int(-1)) => None,
@@ -135,7 +145,9 @@ pub fn model_dval(v: &Val) -> DVal {
 pub fn dump_model(w: &mut World, dbs: &[usize]) -> Dump {
     let mut out = Dump::new();
     for &db in dbs {
+        let amb = w.ambiguous;
         w.resolve_all(db);
+        w.ambiguous = amb;
         let mut d = DbDump::new();
         for (k, e) in &w.dbs[db].keys {
             d.insert(k.clone(), DEntry { val: model_dval(&e.val), pttl: e.ttl.map(|_| 0) });
